@@ -5,9 +5,9 @@ w=/tmp/seed_$id
 cd $w || exit 1
 echo "== tests with change"; /venv/bin/python -m pytest -q -p no:cacheprovider --timeout=900 ebpfcat 2>&1 | tail -1
 echo "== demo with change"; /venv/bin/python SEED/demo.py > /tmp/seed_demo_with.txt 2>&1; echo "exit $?"; tail -2 /tmp/seed_demo_with.txt
-git stash push -q -- ebpfcat
+git apply -R SEED/patch.diff || exit 1
 echo "== demo without change"; /venv/bin/python SEED/demo.py > /tmp/seed_demo_without.txt 2>&1; echo "exit $?"; tail -1 /tmp/seed_demo_without.txt
-git stash pop -q
+git apply SEED/patch.diff || exit 1
 git diff --stat -- ebpfcat | tail -1
 for c in "$@"; do
   echo "== check $c against seeded tree"
